@@ -865,15 +865,18 @@ Finish ==
            h2 == IF f.r[1] = "any" THEN StripTags(heap, f.n, Fuel(heap))
                  ELSE [heap EXCEPT ![f.n].t = TypeTag(f.r)] IN
        IF h2 = <<>> THEN
-           /\ Fail({"Other:RecursionError"}, {}, {}) /\ UNCHANGED <<heap, ret, root>>
+           /\ Fail({"Other:RecursionError"}, {}, {}) /\ UNCHANGED <<heap, ret, root, shared>>
        ELSE
            /\ heap' = h2
+           \* F7 classifier: stripping the tags below an Any position rewrote a
+           \* node that was processed before as something else (through an alias)
+           /\ shared' = (shared \/ \E p \in visited : p[1] # f.n /\ h2[p[1]] # heap[p[1]])
            /\ stack' = SubSeq(stack, 1, Len(stack) - 1)
            /\ IF Len(stack) = 1
               THEN /\ root' = f.n /\ ret' = <<0, 0>> /\ phase' = "construct"
               ELSE /\ ret' = <<f.n, f.slot>> /\ UNCHANGED <<root, phase>>
            /\ UNCHANGED res
-    /\ UNCHANGED <<mi, dt, doc0, open, nalias, log, visited, shared>>
+    /\ UNCHANGED <<mi, dt, doc0, open, nalias, log, visited>>
 
 Construct ==
     /\ phase = "construct"
@@ -883,7 +886,10 @@ Construct ==
        /\ IF r.ok
           THEN /\ phase' = "done" /\ res' = <<"VAL", r.v>>
           ELSE /\ phase' = "failed" /\ res' = <<"ERR", r.s.errs, r.s.cites, r.s.keys>>
-    /\ UNCHANGED <<mi, dt, root, doc0, open, nalias, stack, ret, visited, shared>>
+       \* F7 classifier: stripping the tags below an extra attribute rewrote a
+       \* processed node (reachable from there only through an alias)
+       /\ shared' = (shared \/ \E p \in visited : r.s.h[p[1]] # heap[p[1]])
+    /\ UNCHANGED <<mi, dt, root, doc0, open, nalias, stack, ret, visited>>
 
 (* ------------------------------------------------------------------------ *)
 ModelIdx == {i \in DOMAIN Cat.models : Cat.models[i].id \in ModelIds}
